@@ -37,7 +37,7 @@ def required_cells(tier):
     return {"env:ancilla": 6, "env:pttempo": 2, "nenv:1": 3, "nenv:2": 3,
             "nenv:3": 1, "M:1": 1, "M:2": 1, "M:3": 1, "N:1": 1,
             "dissipator:param": 3, "deriv:user": 2, "deriv:numeric": 3,
-            "target:callable": 2, "target:array": 3, "callables-return-stored-arrays": 4, "pt:gauged": 4, "initial-matrix:non-hermitian": 2, "history:two-dt": 1, "params:structured": 3, "lastbond:closed": 2, "lastbond:cap": 2,
+            "target:callable": 2, "target:array": 3, "callables-return-stored-arrays": 4, "pt:gauged": 4, "no-drift&zero-controls": 2, "shared-rate-callable": 4, "initial-matrix:non-hermitian": 2, "history:two-dt": 1, "params:structured": 3, "lastbond:closed": 2, "lastbond:cap": 2,
             "gradient_entries_compared": 100}
 
 
@@ -53,7 +53,8 @@ def cases(tier, seed):
 class Model:
     """Parameterised dissipative system with M parameters."""
 
-    def __init__(self, rng, d, m, param_diss):
+    def __init__(self, rng, d, m, param_diss, nodrift=False,
+                 shared_rate=False):
         self.d, self.m = d, m
         self.h0 = gen.rand_herm(rng, d, 0.5)
         self.hk = [gen.rand_herm(rng, d, 0.8) for _ in range(m)]
@@ -61,6 +62,19 @@ class Model:
         self.a0 = gen.cplx(rng, (d, d), 0.5)
         self.a1 = gen.cplx(rng, (d, d), 0.3)
         self.param_diss = param_diss
+        # second jump operator driven by the SAME rate callable object
+        self.a2 = gen.cplx(rng, (d, d), 0.5) if shared_rate else None
+        if nodrift:
+            # no drift term, real control Hamiltonians, real dissipator:
+            # wherever all controls vanish the Liouvillian (and every
+            # propagator) is a real matrix - its derivative is not
+            self.h0 = np.zeros((d, d), dtype=complex)
+            self.hk = [gen.rand_herm(rng, d, 0.8, real=True).astype(complex)
+                       for _ in range(m)]
+            self.a0 = rng.normal(size=(d, d)).astype(complex) * 0.5
+            self.a1 = rng.normal(size=(d, d)).astype(complex) * 0.3
+            if self.a2 is not None:
+                self.a2 = rng.normal(size=(d, d)).astype(complex) * 0.5
 
     def h(self, *p):
         out = self.h0.copy()
@@ -76,8 +90,11 @@ class Model:
         return self.a0 + (p[-1] * self.a1 if self.param_diss else 0.0)
 
     def liou(self, *p):
-        return gen.lindblad_super(self.h(*p), [self.gamma(*p)],
-                                  [self.lop(*p)])
+        gs, ls = [self.gamma(*p)], [self.lop(*p)]
+        if self.a2 is not None:
+            gs.append(self.gamma(*p))
+            ls.append(self.a2)
+        return gen.lindblad_super(self.h(*p), gs, ls)
 
     def fixed_arity(self, fn):
         m = self.m
@@ -125,9 +142,14 @@ class Model:
                 for k, x in enumerate(p):
                     out = out + x * self.hk[k]
                 return out
+        rate = self.fixed_arity(self.gamma)
+        gammas, lops = [rate], [self.fixed_arity(lop)]
+        if self.a2 is not None:
+            a2 = self.a2
+            gammas.append(rate)          # the same callable object
+            lops.append(self.fixed_arity(lambda *p: a2))
         return oqupy.ParameterizedSystem(
-            self.fixed_arity(h), [self.fixed_arity(self.gamma)],
-            [self.fixed_arity(lop)],
+            self.fixed_arity(h), gammas, lops,
             propagator_derivatives=self.user_derivs() if user else None)
 
 
@@ -199,7 +221,10 @@ def run_ancilla(case):
     callable_target = bool(i % 3 == 2)
     history = bool(i % 8 in (2, 5))
     dt = float(rng.choice([0.1, 0.2]))
-    model = Model(rng, d, m, param_diss)
+    nodrift = bool(i % 10 == 4)
+    shared_rate = bool(i % 5 == 2)
+    model = Model(rng, d, m, param_diss, nodrift=nodrift,
+                  shared_rate=shared_rate)
     envs = [ancilla.random_env(rng, d, 2, ["unitary", "channel"][j % 2], 0.8)
             for j in range(nenv)]
     # two equally exact representations: open last bond closed by the cap
@@ -233,6 +258,12 @@ def run_ancilla(case):
             params[2 * k + 1, 0] = params[2 * k, 0]
         if nsteps >= 2:
             params[3, :] = params[2, :]
+    if nodrift:
+        # switched-off pulse segments: all controls exactly zero there
+        for row in range(0, 2 * nsteps, 2):
+            params[row, :] = 0.0
+        if nsteps == 1:
+            params[1, :] = 0.0
     sig1, sig2 = gen.rand_herm(rng, d), gen.rand_herm(rng, d)
     target = gen.cplx(rng, (d, d))
 
@@ -271,6 +302,10 @@ def run_ancilla(case):
         cells.append("callables-return-stored-arrays")
     if not closed and i % 3 == 1:
         cells.append("pt:gauged")
+    if nodrift:
+        cells.append("no-drift&zero-controls")
+    if shared_rate:
+        cells.append("shared-rate-callable")
     if general_rho0:
         cells.append("initial-matrix:non-hermitian")
     if history:
